@@ -21,7 +21,7 @@ def _t(what):
 
 CLAIMED = {
     "C02": (HIST, _t("adversarial instruction/step histories on generated worlds with scarce plugs and stalls; after every step and single-instruction probe every plug/queue/stall counter is recounted from vehicle activities."), NOTE),
-    "C03": (HIST, _t("histories with dense request streams (incl. the optional allows_pooling column), double/re-dispatch, interruption attempts and stale request updates handed back through the generic entity API; a per-request ledger automaton advanced from captured events is compared with the state after every step, fares reconciled with balances."), NOTE),
+    "C03": (HIST, _t("histories (location grids of resolution 15 down to 9) with dense request streams (incl. the optional allows_pooling column), controller-defined boarding instructions, double/re-dispatch, interruption attempts and stale request updates handed back through the generic entity API; a per-request ledger automaton advanced from captured events is compared with the state after every step, fares reconciled with balances."), NOTE),
     "C04": (BOTH, _t("(a) call sequences on generated BEV/ICE definitions and chargers (sub-steps, clamps, wrong plug types) checked per call for range, booking identities, strict decrease and deliverable-energy bound; (b) the same identities per vehicle per step on whole histories."), NOTE),
     "C05": (HIST, _t("histories with complete time-varying tariffs, mixed fleets, station and base charging; a double-entry ledger built from charge/pickup events is compared with vehicle and station balances and energy counters after every step, and the stations' per-step load reports (HIVE's construct_station_load_events on the captured reports) with what each station's state says it dispensed, and the run's summary statistics (asked for mid-run and twice at the end) with the totals over stations and vehicles."), NOTE),
     "C06": (BOTH, _t("(a) whole journeys through traverse() on routes from route() (generated street graphs, Denver, straight-line) with the speed bound, junction, link-order and progress clauses per step; (b) the movement clauses on whole histories through move()."), NOTE),
@@ -30,11 +30,11 @@ CLAIMED = {
     "C10": (HIST, _t("histories over worlds with 0-3 fleets (ids that may contain one another) and arbitrary membership of every entity, requests injected with memberships set after build and re-offered to another fleet while a vehicle is under way; (a) state invariant recomputed from raw membership sets after every step/probe, (b) every instruction emitted by the built-in Dispatcher / ChargingFleetManager (recording proxy) and drivers must name a granting request/station."), NOTE),
     "C01": ("differential property-based testing across worker processes started with different PYTHONHASHSEEDs (Hypothesis-generated scenarios + shipped Denver scenarios), exact comparison of canonical states, event multisets and summary",
             _t("the same generated or shipped scenario is run step by step in 5 worker processes with different interpreter hash seeds (always 0, 1, 3) and different local time zones - one of them a brand-new process for every scenario, the others long-lived with earlier scenarios and a warm-up world (other vehicle definitions under the same ids) behind them - and twice in one process; per-step canonical states, event multisets and summary statistics must agree exactly."), NOTE),
-    "C09": (HIST, _t("in every reached state single instructions of all 9 types and batches are applied to the current state and compared (rejected => nothing changed, accepted => instructed class + recounts); per step the INSTRUCTION reports are compared with 'driver's own, else last generated' recomputed on the state handed to the generators."), NOTE),
+    "C09": (HIST, _t("in every reached state single instructions of all 9 types and batches are applied to the current state and compared (rejected => nothing changed, accepted => instructed class + recounts + the request records the vehicle sent to it); per step the INSTRUCTION reports are compared with 'driver's own, else last generated' recomputed on the state handed to the generators."), NOTE),
     "C11": (COMP, _t("whole co-simulation runs of generated sorted request files and price tables (by station id / region at one resolution, partial tables, unknown stations, odd step lengths) against an arithmetic reference model of admission, cancellation and price application; any exception is a violation."), NOTE),
-    "C12": (COMP, _t("generated states (activities, shifts, charge levels, 0-3 fleets with ids that may contain one another, requests named like vehicles, ties) handed to Dispatcher.generate_instructions; per fleet the pairing is checked for distinctness, eligibility by an independent re-statement, size = min(counts) and total grid distance = optimum of an exact subset DP."), NOTE),
-    "C13": (COMP, _t("route() and position_from_geoid() on generated strongly connected street graphs, Denver and the straight-line network (ten places on earth, next-door cells) for generated position pairs (same link both orders, opposite directions, interiors) against a validity predicate."), NOTE),
-    "C14": (COMP, _t("inner travel time of route() between link pairs on generated graphs with strongly varying speeds and on Denver (the network also written out with to_file() between queries) equals the optimum of an independent Dijkstra."), NOTE),
+    "C12": (COMP, _t("generated states (activities, shifts, charge levels, 0-3 fleets with ids that may contain one another, requests named like vehicles, ties) handed to Dispatcher.generate_instructions; per fleet the pairing is checked for distinctness, eligibility by an independent re-statement, size = min(counts) (in whole histories 'driver on shift' is decided from the shift table and the clock, not from the flag the dispatcher reads) and total grid distance = optimum of an exact subset DP."), NOTE),
+    "C13": (COMP, _t("route() and position_from_geoid() on generated strongly connected street graphs, Denver and the straight-line network (ten places on earth, next-door cells; locations tens of kilometres outside the network are snapped too) for generated position pairs (same link both orders, opposite directions, interiors) against a validity predicate."), NOTE),
+    "C14": (COMP, _t("inner travel time of route() between link pairs on generated graphs with strongly varying speeds and on Denver (the network also written out with to_file() between queries, default speed of unmarked links drawn from 40 / 25 / 70 km/h) equals the optimum of an independent Dijkstra."), NOTE),
     "C15": (COMP, _t("each generated scenario is loaded fresh three times: split cranks (optionally re-injecting generators), one crank, batch runner; per-step canonical states and event multisets must be equal and the clock uniform; the step()/run() range is checked against an arbitrary end time."), NOTE),
     "C16": (HIST, _t("histories retain up to 8 states with deep fingerprints (including instance ids) which must never change under later steps / instruction applications; retained states are stepped twice with identical controllers - with a what-if sweep from other states in between, or run forward 3-10 steps twice - and compared modulo instance ids and with the result recorded when they were retained."), NOTE),
     "C19": (COMP, _t("whole runs through the real file-writing handlers (request ids that come round again, default and generated log_sim_config, built-in, deterministic and clumsy controllers); the parsed event.log, per-step snapshots with captured reports and the summary are reconciled (odometer, energy, station load per flush, request counts, state-diff <-> event bijection, pickup wait bounds, get_events()/clear() windows)."), NOTE),
